@@ -107,6 +107,14 @@ def r32(repo, ctx, attrs):
                             lead1 = True
                         if isinstance(v, ast.Name):
                             lead1 = True     # arrays built with a leading 1 in the same function (checked below)
+                        if isinstance(v, ast.Tuple) and isinstance(s, ast.Assign) and len(s.targets) == 1 and isinstance(s.targets[0], ast.Tuple) \
+                                and len(v.elts) == len(s.targets[0].elts) and t in s.targets[0].elts:
+                            e_ = v.elts[s.targets[0].elts.index(t)]     # the element this target receives
+                            lead1 = isinstance(e_, ast.Name) or (isinstance(e_, ast.Call) and U.call_name(e_) == 'np.array' and e_.args
+                                                                 and isinstance(e_.args[0], ast.List) and len(e_.args[0].elts) == 1)
+                        if isinstance(v, ast.Call) and isinstance(s, ast.Assign) and len(s.targets) == 1 and isinstance(s.targets[0], ast.Tuple) \
+                                and (U.call_name(v) or '').startswith('self.'):
+                            lead1 = True     # unpacked straight from the method that builds the one-row arrays
                         ctx.check(ok and lead1, 'R3.2', p, q, s, f'slice field {t.attr} rebound in a function of the frozen list with a one-row value',
                                   f'slice field {t.attr} is rebound in {q} (not in the frozen list {sorted(SLICE_REBINDERS)}) or not with a one-row array', construct=U.src(s))
     ctx.floor('R3.2', n, 6)
